@@ -77,11 +77,14 @@ PROPS = {
     },
     "C08": {
         "level": EXPL,
-        "plan": [{"engine": "shipsim1", "timeout": T_SIM}, {"engine": "wsconn", "timeout": T_SIM}],
+        "plan": [{"engine": "shipsim1", "timeout": T_SIM}, {"engine": "wsconn", "timeout": T_SIM}, {"engine": "mdnssim", "timeout": T_SIM}],
         "rule": "B1 histories (see C01): in every handshake state reachable by a cooperative prefix, both roles, each input of the alphabet (valid messages of "
                 "every phase, field removed/duplicated/ill-typed, empty lists, huge numbers, deep nesting, whitespace variants, NUL padding, wrong header bytes) "
                 "and byte-level mutations/arbitrary bytes; a panic is recovered at the entry point (or kills the child process, attributed by the scenario log), "
-                "a call that never returns is decided by the in-process watchdog from two goroutine dumps; distinct = (role, state, input class) pairs",
+                "a call that never returns is decided by the in-process watchdog from two goroutine dumps; wsconn: 59 hostile websocket frames (every opcode, "
+                "reserved bits, wrong masking, fragments, length lies, oversize, text, close codes) on both sides of the handshake, afterwards the connection must be closed-and-released "
+                "or still deliver; mdnssim: generated TXT maps / host names / address lists (nil IPs) / ports -1..70000 / removes handed to the resolver callback, afterwards only "
+                "valid records may be present; distinct = (role, state, input class) pairs, frame kinds, TXT classes",
         "floors": {"evaluations": 3000, "classes": 150, "counters": {"shipsim1:inputs-delivered": 5000}},
         "crash_decides": True,
         "assumptions": ["inputs shorter than 2 bytes are rejected by the ws layer and not delivered here"],
@@ -129,5 +132,27 @@ PROPS = {
         "floors": {"evaluations": 500, "classes": 60, "counters": {"wsconn:close-between-writes-of-one-writer": 50, "wsconn:porcupine-ok": 300}},
         "crash_prop": "C12", "crash_decides": True,
         "assumptions": ["scenarios that would need the real 10 s write deadline (stalled peer + close with reason) are not in the quick tier"],
+    },
+    "C17": {
+        "level": EXPL,
+        "plan": [{"engine": "mdnssim", "timeout": T_SIM}],
+        "rule": "real MdnsManager + real (not started) Hub + recording application in a synctest bubble; resolver event histories <= 40 over 1-5 services x 1-4 addresses "
+                "(IPv4, IPv6 global, IPv6 link-local, duplicates inside one event), adds, removes in Avahi and zeroconf shape, invalid records (each mandatory key missing, txtvers 2, "
+                "non-boolean register, own SKI, nil/empty map), bursts without settling so that report goroutines pile up, GOMAXPROCS 1/4; oracle: the manager's entries equal a "
+                "reference model after every event; the last delivered visible-services list equals the final model at quiescence; distinct = history shape classes and delivery-order signatures",
+        "floors": {"evaluations": 1000, "classes": 200, "counters": {"mdnssim:histories-with-reports-in-flight": 200}},
+        "crash_prop": "C17", "crash_decides": True,
+        "assumptions": ["MdnsManager.Start wiring (provider selection, D-Bus, sockets) replaced by the VerifAttach hook"],
+    },
+    "C19": {
+        "level": EXPL,
+        "plan": [{"engine": "mdnssim", "timeout": T_SIM}],
+        "rule": "real AvahiProvider against a scripted fake Avahi daemon (avahi.ServerInterface) in a synctest bubble: histories of 2-12 operations over daemon down / up with 0-3 failing "
+                "attempts at setup, API version or browser creation / announce(txt_i) / unannounce / shutdown / second shutdown / start after shutdown / browse results / virtual gaps "
+                "around the 1 s retry tick; oracle at quiescence after the daemon is back: browser on the current session, exactly one committed entry group iff an announcement is active, "
+                "with the most recently requested TXT, later browse results reported, nothing restarted after Shutdown returned, Shutdown returns; distinct = operation-pair classes",
+        "floors": {"evaluations": 1000, "classes": 40},
+        "crash_prop": "C19", "crash_decides": True,
+        "assumptions": ["the fake daemon delivers Disconnected once per lost connection on its own goroutine, like go-avahi", "D-Bus and the real Avahi client are outside the sandbox"],
     },
 }
